@@ -15,7 +15,7 @@ from . import hashgen
 EVIDENCE = dict(
     level='proof',
     rule='cases = generated value/invocation specs (nested containers, sets, dicts, arrays of all layouts, tasks, tasklets, '
-         'mapped sequences, hash wrappers), each realised in k interpreter processes with different PYTHONHASHSEED (one after the other) '
+         'mapped sequences, hash wrappers, instances of subclasses of the built-in containers / scalars / ndarray), each realised in k interpreter processes with different PYTHONHASHSEED (one after the other) '
          'and once in an interpreter that has computed no other identifier; '
          'non-trivial = the spec contains at least one container/array/task node (more than one node); distinct = distinct specs',
     explanation='Coq: the digest is invariant under permutation of set/frozenset/dict children and array layout (for any sha1 stand-in H); '
@@ -48,6 +48,12 @@ def gen_specs(ck, n):
         ['rawarray', '>f8', [2, 3], '000102030405060708090a0b0c0d0e0f101112131415161718191a1b1c1d1e1f202122232425262728292a2b2c2d2e2f'],
         ['task', 'f', [['getitem', ['rettuple', ['task', 'g', [['set', [['leaf', "'u'"], ['leaf', "'v'"]]]], []], 1, 2], ['leaf', '0']],
                        ['iter', ['getitem', ['task', 'g', [], []], ['leaf', "'a'"]], 1, 3]], []],
+        # instances of subclasses of the dispatched types (pickled whole): positional, keyword, nested
+        ['task', 'f', [['sub', 'OrderedDict', ['dict', [[['leaf', "'b'"], ['leaf', '2']], [['leaf', "'a'"], ['leaf', '1']]]]]],
+         [['a', ['sub', 'defaultdict_list', ['dict', [[['leaf', "'k'"], ['list', [['leaf', '1']]]]]]]]]],
+        ['list', [['sub', 'Counter', ['dict', [[['leaf', "'a'"], ['leaf', '1']]]]], ['sub', 'Point', ['tuple', [['leaf', '1'], ['leaf', '2']]]],
+                  ['sub', 'MySet', ['set', [['leaf', '2'], ['leaf', '1']]]], ['sub', 'MyStr', ['leaf', "'ab'"]]]],
+        ['dict', [[['leaf', "'m'"], ['sub', 'masked1', ['array', 'int32', [2, 2], [1, 2, 3, 4]]]], [['leaf', "'r'"], ['sub', 'recarray', ['array', 'float64', [3], [1, 2, 3]]]]]],
         # ==-equal scalars of different types as dict keys / set elements of consecutive values
         ['task', 'f', [['dict', [[['leaf', '1'], ['leaf', '10']], [['leaf', '2'], ['leaf', '20']]]]], []],
         ['task', 'g', [['dict', [[['leaf', '1.0'], ['leaf', '10']], [['leaf', '2.0'], ['leaf', '20']], [['leaf', '2.5'], ['leaf', '5']]]]], []],
